@@ -550,7 +550,10 @@ impl Optimizer {
                     if let (Some(left_var), Some(right_var)) = (
                         self.extract_variable_from_expr(&cond.left),
                         self.extract_variable_from_expr(&cond.right),
-                    ) {
+                    ) && left_var != right_var
+                    {
+                        // (a condition over a single relation connects nothing: the
+                        // join graph would lose it, so such a tree is left as written)
                         conditions.push(JoinInfo {
                             left_var,
                             right_var,
